@@ -358,15 +358,29 @@ pub fn large(ctx: &mut Ctx) {
         return;
     }
     ctx.count("concurrent_sort_preconditions_met", 1);
-    let rounds = ctx.by_tier(2, 6);
+    let rounds = ctx.by_tier(3, 8);
     let mut cur: Vec<u32> = (0..n).collect();
     for round in 0..rounds {
-        // permute a window of 6 variables in the middle (large levels), different each round
-        let lo = rng.range((k - 6) as usize, (k + 1) as usize) as u32;
-        let mut window: Vec<u32> = cur[lo as usize..(lo + 6) as usize].to_vec();
-        let before = window.clone();
-        while window == before {
-            rng.shuffle(&mut window);
+        // even rounds: permute a window of 6 variables in the middle (large levels), different each
+        // round; odd rounds: reverse a long stretch of the order, so that neighbouring level pairs
+        // all have inversions and many swap tasks of the concurrent bubble sort are adjacent
+        let (lo, wlen) = if round % 2 == 0 {
+            (rng.range((k - 6) as usize, (k + 1) as usize) as u32, 6u32)
+        } else if round % 4 == 1 {
+            (0, n)
+        } else {
+            let wlen = rng.range(12, 24) as u32;
+            (rng.range(0, (n - wlen + 1) as usize) as u32, wlen)
+        };
+        let mut window: Vec<u32> = cur[lo as usize..(lo + wlen) as usize].to_vec();
+        if round % 2 == 0 {
+            let before = window.clone();
+            while window == before {
+                rng.shuffle(&mut window);
+            }
+        } else {
+            window.reverse();
+            ctx.count("large_reversals", 1);
         }
         let req = window.clone();
         mref.with_manager_exclusive(|m| oxidd_reorder::set_var_order(m, &req));
@@ -377,7 +391,7 @@ pub fn large(ctx: &mut Ctx) {
         }
         // unnamed variables must not move when only a window is permuted (minimal swaps)
         let mut expect = cur.clone();
-        expect[lo as usize..(lo + 6) as usize].copy_from_slice(&req);
+        expect[lo as usize..(lo + wlen) as usize].copy_from_slice(&req);
         ctx.eval();
         if after != expect {
             ctx.violation("bdd:large:set_var_order:not-minimal-swaps", format!("{label} round {round}: expected {expect:?} got {after:?}"));
@@ -423,5 +437,5 @@ pub fn large(ctx: &mut Ctx) {
     mref.with_manager_shared(|m| m.gc());
     let left = mref.with_manager_shared(|m| m.num_inner_nodes());
     ctx.check(left == 0, "bdd:large:gc:nodes-left-after-dropping-everything", || format!("{label}: {left}"));
-    ctx.sample(|| format!("{label}: f = OR_i(x_i & x_(i+18)) over 36 variables ({exact} nodes), {rounds} x permute a window of 6 middle variables with set_var_order on {threads} workers"));
+    ctx.sample(|| format!("{label}: f = OR_i(x_i & x_(i+18)) over 36 variables ({exact} nodes), {rounds} x set_var_order on {threads} workers, alternating a shuffled window of 6 middle variables and reversals of the whole order / of 12..24 consecutive levels"));
 }
